@@ -9,6 +9,7 @@ import (
 	"os"
 
 	"github.com/wolimst/lib-secs2-hsms-go/pkg/ast"
+	"github.com/wolimst/lib-secs2-hsms-go/pkg/parser/hsms"
 )
 
 func init() {
@@ -184,6 +185,47 @@ func driverCtrl(c *Ctx) {
 					}
 				}
 				c.count("ctrl.sidsweep")
+			}
+			ci++
+		}
+	}
+	// (b') every status / reason code for the constructors that take one, at a few session ids; each message is also
+	// decoded from its bytes (intervals of codes on which everything but the code byte is constant)
+	for _, kind := range []string{"select.rsp", "deselect.rsp", "reject.req"} {
+		for _, sid := range []int{0, 1, 10, 0x0A00, 65535} {
+			if c.want(ci) {
+				type cls struct {
+					rest          string
+					codeok, decok bool
+				}
+				classOf := func(code int) cls {
+					b := mkCtrl(kind, uint16(sid), sys, byte(code)).ToBytes()
+					r := cls{codeok: len(b) == 14 && b[7] == byte(code)}
+					rest := clone(b)
+					if len(rest) == 14 {
+						rest[7] = 0
+					}
+					r.rest = string(rest)
+					var m ast.HSMSMessage
+					var ok bool
+					p, _ := try(func() { m, ok = hsms.Parse(exact(b)) })
+					r.decok = !p && ok && m != nil && string(m.ToBytes()) == string(b) && typeOf(m) == kind
+					return r
+				}
+				start, prevb := 0, -1
+				cur := classOf(0)
+				for code := 1; code <= 256; code++ {
+					var k cls
+					if code < 256 {
+						k = classOf(code)
+					}
+					if code == 256 || k != cur {
+						c.emit(ci, J{"ev": "codeivl", "kind": kind, "sid": sid, "a": start, "b": code - 1, "prevb": prevb, "codeok": cur.codeok,
+							"decok": cur.decok, "rest": bytesJ([]byte(cur.rest)), "sys": bytesJ(sys)})
+						prevb, start, cur = code-1, code, k
+					}
+				}
+				c.count("ctrl.codesweep")
 			}
 			ci++
 		}
